@@ -9,6 +9,7 @@ import (
 	"fmt"
 	"math/big"
 	"sort"
+	"runtime"
 	"sync"
 	"time"
 
@@ -34,11 +35,14 @@ type Prop struct {
 }
 
 type Case struct {
-	Mode  string `json:"mode"` // batches | session
+	Mode  string `json:"mode"` // batches | session | hashes
 	Mid   string `json:"mid,omitempty"`
 	Cap   uint64 `json:"cap"`
 	Tg    uint64 `json:"tg"`
 	Props []Prop `json:"props"`
+	// Sched (session mode): "p1" runs Execute under GOMAXPROCS(1), i.e. the schedule in which the
+	// dispatch loop finishes before any batch goroutine starts (the model is schedule-independent)
+	Sched string `json:"sched,omitempty"`
 }
 
 type BatchObs struct {
@@ -52,7 +56,25 @@ type SessObs struct {
 type Obs struct {
 	Batches  []BatchObs `json:"batches"`
 	Sessions []SessObs  `json:"sessions,omitempty"`
+	Hashed   [][]uint64 `json:"hashed,omitempty"`
 	Note     string     `json:"note,omitempty"`
+}
+
+// hashRecBridge records what Execute hands to ProposalsHash and fails at once, so that a batch
+// goroutine never blocks: under GOMAXPROCS(1) the pool's worker goroutines are then re-used while
+// the dispatch loop runs ahead - the schedule in which a batch goroutine that reads shared loop
+// state sees a later batch.
+type hashRecBridge struct {
+	fk.EvmBridge
+	mu     sync.Mutex
+	hashed [][]uint64
+}
+
+func (b *hashRecBridge) ProposalsHash(ps []*transfer.TransferProposal) ([]byte, error) {
+	b.mu.Lock()
+	b.hashed = append(b.hashed, nonces(fk.KeysOf(ps)))
+	b.mu.Unlock()
+	return nil, fk.ErrHash
 }
 
 const source = uint8(1)
@@ -209,10 +231,42 @@ func run(c Case) Obs {
 		}
 		o.Batches = append(o.Batches, bo)
 	}
+	if c.Mode == "hashes" {
+		rb := &hashRecBridge{EvmBridge: fk.EvmBridge{Chain: chain}}
+		ex2 := evmexec.NewExecutor(host, cm, coord, rb, fetcher, &sync.RWMutex{}, c.Cap, c.Tg)
+		old := runtime.GOMAXPROCS(1)
+		done := make(chan error, 1)
+		go func() { done <- ex2.Execute(ps) }()
+		select {
+		case <-done:
+		case <-time.After(120 * time.Second):
+			panic("C14 runner: Executor.Execute did not return")
+		}
+		runtime.GOMAXPROCS(old)
+		rb.mu.Lock()
+		o.Hashed = append([][]uint64{}, rb.hashed...)
+		rb.mu.Unlock()
+		// canonical order: by first member, then length (batches are consecutive runs of nonces)
+		sort.SliceStable(o.Hashed, func(i, j int) bool {
+			a, b := o.Hashed[i], o.Hashed[j]
+			if len(a) == 0 || len(b) == 0 {
+				return len(a) < len(b)
+			}
+			if a[0] != b[0] {
+				return a[0] < b[0]
+			}
+			return len(a) < len(b)
+		})
+		return o
+	}
 	if c.Mode != "session" {
 		return o
 	}
 
+	if c.Sched == "p1" {
+		old := runtime.GOMAXPROCS(1)
+		defer runtime.GOMAXPROCS(old)
+	}
 	g := newGate(signed)
 	chain.OnHash = g.onHash
 	cm.OnSession = g.onSession
@@ -356,7 +410,12 @@ func gen(r *vgen.Rng, tier string) []Case {
 			}
 			ps[j].Executed = r.Chance(1, 5)
 		}
-		out = append(out, Case{Mode: "session", Mid: vgen.Pick(r, mids), Cap: cap, Tg: tg, Props: ps})
+		sc := Case{Mode: "session", Mid: vgen.Pick(r, mids), Cap: cap, Tg: tg, Props: ps}
+		if r.Bool() {
+			sc.Sched = "p1"
+		}
+		out = append(out, sc)
+		out = append(out, Case{Mode: "hashes", Mid: sc.Mid, Cap: cap, Tg: tg, Props: ps})
 	}
 	return out
 }
@@ -383,6 +442,9 @@ func coqBatches(bs []BatchObs) string {
 
 func coq(c Case, o Obs) string {
 	head := n64(c.Cap) + " " + n64(c.Tg) + " " + coqProps(c.Props) + " " + coqBatches(o.Batches)
+	if c.Mode == "hashes" {
+		return "Hsh " + head + " " + vgen.ListOf(o.Hashed, func(m []uint64) string { return vgen.ListOf(m, vgen.N) })
+	}
 	if c.Mode != "session" {
 		return "Bat " + head
 	}
